@@ -19,6 +19,106 @@ class States:
             raise AnalysisError('anchor vanished: IkeSa.State has %d members' % len(self.members))
         self.names = sorted(self.members, key=lambda k: self.members[k])
         self.all = frozenset(self.names)
+        self.enum_cls = prog.cls(qual)
+
+    # ---- predicates over one member, decided from what the enumeration itself says (its names, values and properties)
+    class _NoVal(Exception):
+        pass
+
+    def _member_value(self, e, var, member, subject=None, depth=0):
+        """Python value of expression e when `var` (or the state expression `subject`) is the member named `member`; members are
+        represented by their names wrapped in a 1-tuple"""
+        NV = States._NoVal
+        if depth > 8:
+            raise NV()
+        ev = lambda x: self._member_value(x, var, member, subject, depth + 1)      # noqa: E731
+        if isinstance(e, ast.Name) and var is not None and e.id == var:
+            return (member,)
+        if subject is not None and self.is_state_expr(e) and src(e) == subject:
+            return (member,)
+        c = self.const(e)
+        if c is not None:
+            return (c,)
+        if isinstance(e, ast.Constant):
+            return e.value
+        if isinstance(e, ast.Attribute):
+            b = ev(e.value)
+            if isinstance(b, tuple) and len(b) == 1:
+                if e.attr == 'name':
+                    return b[0]
+                if e.attr == 'value':
+                    return self.members[b[0]]
+                for k in self.enum_cls.mro():
+                    m = k.methods.get(e.attr)
+                    if m is not None:
+                        body = [st for st in m.node.body if not (isinstance(st, ast.Expr) and isinstance(st.value, ast.Constant))]
+                        if m.is_property and len(body) == 1 and isinstance(body[0], ast.Return) and body[0].value is not None:
+                            return self._member_value(body[0].value, m.self_name, b[0], None, depth + 1)
+                        raise NV()
+            raise NV()
+        if isinstance(e, ast.Call) and isinstance(e.func, ast.Attribute) and not e.keywords:
+            b = ev(e.func.value)
+            args = [ev(a) for a in e.args]
+            if isinstance(b, str) and e.func.attr in ('endswith', 'startswith', 'lower', 'upper', 'count', 'find') \
+                    and all(isinstance(a, (str, tuple)) and not (isinstance(a, tuple) and len(a) == 1 and a[0] in self.members and False) for a in args):
+                return getattr(b, e.func.attr)(*args)
+            raise NV()
+        if isinstance(e, (ast.Tuple, ast.List, ast.Set)):
+            return tuple(ev(x) for x in e.elts)
+        if isinstance(e, ast.BoolOp):
+            vs = [ev(x) for x in e.values]
+            return all(vs) if isinstance(e.op, ast.And) else any(vs)
+        if isinstance(e, ast.UnaryOp) and isinstance(e.op, ast.Not):
+            return not ev(e.operand)
+        if isinstance(e, ast.Compare):
+            def num(v):
+                return self.members[v[0]] if isinstance(v, tuple) and len(v) == 1 and v[0] in self.members else v
+            left = ev(e.left)
+            for op, r in zip(e.ops, e.comparators):
+                if isinstance(op, (ast.In, ast.NotIn)):
+                    cs = self.const_set(r)
+                    if cs is not None and isinstance(left, tuple) and len(left) == 1:
+                        inside = left[0] in cs
+                    else:
+                        right = ev(r)
+                        if isinstance(right, str) and isinstance(left, str):
+                            inside = left in right
+                        elif isinstance(right, tuple):
+                            inside = any(num(x) == num(left) for x in right)
+                        else:
+                            raise NV()
+                    if inside != isinstance(op, ast.In):
+                        return False
+                    continue
+                right = ev(r)
+                a, b = num(left), num(right)
+                if type(a) is not type(b) and not (isinstance(a, (int, bool)) and isinstance(b, (int, bool))):
+                    if isinstance(op, (ast.Eq, ast.Is)):
+                        return False
+                    if isinstance(op, (ast.NotEq, ast.IsNot)):
+                        left = right
+                        continue
+                    raise NV()
+                ok = {ast.Eq: lambda: a == b, ast.NotEq: lambda: a != b, ast.Lt: lambda: a < b, ast.LtE: lambda: a <= b,
+                      ast.Gt: lambda: a > b, ast.GtE: lambda: a >= b, ast.Is: lambda: a == b, ast.IsNot: lambda: a != b}.get(type(op))
+                if ok is None:
+                    raise NV()
+                if not ok():
+                    return False
+                left = right
+            return True
+        if isinstance(e, ast.Call) and isinstance(e.func, ast.Name) and e.func.id == 'range' and len(e.args) == 2 and not e.keywords:
+            lo, hi = self.int_of(e.args[0]), self.int_of(e.args[1])
+            if lo is None or hi is None:
+                raise NV()
+            return tuple(range(lo, hi))
+        raise NV()
+
+    def member_truth(self, e, var, member, subject=None):
+        try:
+            return bool(self._member_value(e, var, member, subject))
+        except (States._NoVal, Exception):
+            return None
 
     def const(self, expr):
         ch = attr_chain(expr)
@@ -67,6 +167,14 @@ class States:
 
     def _cmp_val(self, c, var, val, subject=None):
         """truth of a comparison chain / and / or / not over `var` (bound to the integer val) and state constants"""
+        v = self._cmp_val0(c, var, val, subject)
+        if v is None:
+            names = [n for n, x in self.members.items() if x == val]
+            if len(names) == 1:
+                v = self.member_truth(c, var, names[0], subject)
+        return v
+
+    def _cmp_val0(self, c, var, val, subject=None):
         def num(e):
             if isinstance(e, ast.Name) and e.id == var:
                 return val
@@ -123,6 +231,23 @@ class States:
 
     def eval_cond(self, expr):
         """(subject text, frozenset of states for which expr is true) or None"""
+        r = self._eval_cond0(expr)
+        if r is None:
+            # anything else that reads one state expression and nothing else that varies: decided member by member
+            subjects = {src(o) for o in ast.walk(expr) if self.is_state_expr(o)}
+            if len(subjects) == 1:
+                subj = subjects.pop()
+                out = set()
+                for name in self.members:
+                    v = self.member_truth(expr, None, name, subj)
+                    if v is None:
+                        return None
+                    if v:
+                        out.add(name)
+                return subj, frozenset(out)
+        return r
+
+    def _eval_cond0(self, expr):
         if isinstance(expr, ast.Compare) and len(expr.ops) > 1:
             # A <= self.state < B: a chain over one state expression and state constants, decided member by member
             operands = [expr.left] + list(expr.comparators)
